@@ -1584,7 +1584,7 @@ fn pat_soup(g: &mut G) -> String {
         let sign = *g.r.pick(&["", "", "-", "+"]);
         let num = *g.r.pick(&["9223372036854775807", "9223372036854775808", "9223372036854775806", "18446744073709551615",
                                "18446744073709551616", "0", "00", "1", "9223372036854775807.0", "9223372036854775807.5", "1e400", "1e-400",
-                               "1.7976931348623157e308", "1.7976931348623159e308", "4.9e-324", ".5", "5.", "1_000", "0x10", "NaN", "nan", "inf",
+                               "1.7976931348623157e308", "1.7976931348623159e308", "4.9e-324", ".5", "5.", "1_000", "0x10", "0x8000000000000000", "0xFFFFFFFFFFFFFFFF", "0b1", "0o7", "NaN", "nan", "inf",
                                "infinity", "1e", "e1", "1.5.5", "99999999999999999999999999999999999999999"]);
         let post = *g.r.pick(&["", "", "", " ", "a", "*", ".", "-"]);
         return format!("{}{}{}{}", pre, sign, num, post);
@@ -2726,6 +2726,13 @@ pub fn gen_cases(topic: &str, seed: u64, n: usize, path: &str) -> Result<(), Str
                     let gv = if g.r.chance(1, 2) { i_node(b) } else { s_node(b) };
                     docs.push(obj(vec![("f".into(), fv), ("g".into(), gv)]));
                 }
+                // floats whose TEXTS differ although the values compare equal (0 and -0), or are equal
+                // although the values do not (NaN and NaN): str() compares the canonical text
+                let z = |neg: bool| json!({"t":"F","neg":neg,"d":[],"fr":[],"sp":""});
+                let nan = json!({"t":"F","neg":false,"d":[],"fr":[],"sp":"nan"});
+                docs.push(obj(vec![("f".into(), z(false)), ("g".into(), z(true))]));
+                docs.push(obj(vec![("f".into(), nan.clone()), ("g".into(), nan)]));
+                docs.push(obj(vec![("f".into(), f_node("1.5")), ("g".into(), f_node("1.5"))]));
                 json!({"topic":"num","oracle":true,"wt":true,"src":src,"docs":docs,
                        "plan":{"tri":true,"sws":[[], [true,true,true,true]]}})
             }
